@@ -34,7 +34,7 @@ func init() {
 }
 
 func c10MTU(r *fw.Rand) int {
-	return r.Pick(3, 4, 5, 6, 7, 8, 9, 10, 12, 16, 20, 33, 40, 100, 1200, r.Range(3, 40), r.Range(3, 40), r.Range(41, 1500))
+	return r.Pick(3, 4, 5, 6, 7, 8, 9, 10, 12, 16, 20, 33, 40, 100, 1200, 1460, 9000, 65535, r.Range(3, 40), r.Range(3, 40), r.Range(41, 1500))
 }
 
 var c10SliceTypes = []int{1, 1, 1, 5, 5, 2, 3, 4, 6, 10, 11, 13, 14, 15, 16, 19, 20, 21, 22, 23}
@@ -73,7 +73,12 @@ func c10Stream(r *fw.Rand, mtu int) (calls []c10Call, expect [][]byte, pairs map
 				needSlice = true
 			default:
 				t := c10SliceTypes[r.Intn(len(c10SliceTypes))]
-				all = append(all, gen.H264Unit(r, t, gen.H264Size(r, mtu)))
+				sz := gen.H264Size(r, mtu)
+				if mtu >= 1000 && r.Chance(1, 12) {
+					// units larger than 64 KiB are ordinary for key frames: 16-bit length arithmetic must not be involved
+					sz = r.Pick(65534, 65535, 65536, 65537, 70000, 131072, 131073)
+				}
+				all = append(all, gen.H264Unit(r, t, sz))
 				kinds = append(kinds, 'u')
 				needSlice = false
 			}
@@ -332,6 +337,9 @@ func c10Dec(c *fw.Ctx, i int) {
 			desc = append(desc, fmt.Sprintf("stap-a(%d units)", k))
 		default: // FU-A
 			u := gen.H264Unit(r, r.Range(1, 23), r.Range(2, 200))
+			if r.Chance(1, 150) {
+				u = gen.H264Unit(r, r.Range(1, 23), r.Pick(65535, 65536, 65537, 70000, 131073))
+			}
 			nf := r.Range(2, 8)
 			body := u[1:]
 			// cut points (empty fragments allowed)
